@@ -472,6 +472,73 @@ fn check_tables(acc: &mut Acc, max_len: usize) {
     let _ = MetadataWrapper::Layout;
 }
 
+/// An identifier is a string. A's genuine signature whose entry spells A's id differently (upper
+/// case, one letter in upper case, a blank appended - the latter no key id at all) is attributed to
+/// an identifier no key has: it is never checked against A's key, let alone counted. Also: an
+/// identifier read from JSON is written back as it was read.
+fn check_respelled_ids(acc: &mut Acc) {
+    let (a, owner) = (keys::get("ed1"), keys::get("ed6"));
+    let ida = a.id();
+    let mut one_upper: Vec<char> = ida.chars().collect();
+    if let Some(c) = one_upper.iter_mut().find(|c| c.is_ascii_alphabetic()) {
+        *c = c.to_ascii_uppercase();
+    }
+    let one_upper: String = one_upper.into_iter().collect();
+    let mut late_upper: Vec<char> = ida.chars().collect();
+    if let Some(c) = late_upper.iter_mut().skip(8).find(|c| c.is_ascii_alphabetic()) {
+        *c = c.to_ascii_uppercase();
+    }
+    let late_upper: String = late_upper.into_iter().collect();
+    let spellings: Vec<(&str, String)> = vec![("upper case", ida.to_uppercase()), ("first letter in upper case", one_upper), ("a letter after the prefix in upper case", late_upper)];
+    let dir = util::fresh_dir("c12r");
+    let lay = world::sign_layout(world::layout(vec![world::step("s", 1, &[a])], vec![], &[a], world::far_future()), &[owner]);
+    let link = world::block_value(&world::sign_link(world::link("s", world::arts(&[]), world::arts(&[("p", 1)])), &[a]));
+    for (sn, sp) in &spellings {
+        if *sp == ida {
+            continue;
+        }
+        // (1) the identifier survives reading and writing as a string
+        acc.evaluations += 1;
+        acc.nontrivial += 1;
+        match guard(|| serde_json::from_value::<KeyId>(json!(sp)).ok().and_then(|k| serde_json::to_value(&k).ok())) {
+            Guard::Done(Some(back)) if back == json!(sp) => acc.outcome("identifier-kept-as-read"),
+            Guard::Done(Some(back)) => acc.violation("identifier-rewritten-on-reading", &format!("the key id {sp} ({sn}) is read and written back as {back}"), || json!({"kind": "respelled-id", "spelling": sn, "leg": "roundtrip"})),
+            Guard::Done(None) => acc.outcome("identifier-rejected"),
+            Guard::Panicked(l, m) => acc.violation(&format!("panic:{l}"), &m, || json!({"kind": "respelled-id", "spelling": sn})),
+        }
+        // (2) end to end: the link's signature entry carries the re-spelled id; the file under the proper
+        // name, under the re-spelled prefix, and under both
+        for files in [vec![ida[..8].to_string()], vec![sp[..8].to_string()], vec![ida[..8].to_string(), sp[..8].to_string()]] {
+            for e in std::fs::read_dir(&dir).unwrap().flatten() {
+                let _ = std::fs::remove_file(e.path());
+            }
+            let mut v = link.clone();
+            v["signatures"][0]["keyid"] = json!(sp);
+            for f in &files {
+                world::write(&dir, &format!("s.{f}.link"), &v.to_string());
+            }
+            acc.evaluations += 1;
+            acc.nontrivial += 1;
+            let verdict = world::verify(&lay, world::owner_map(&[owner]), &dir);
+            let w = || json!({"kind": "respelled-id", "spelling": sn, "leg": "end-to-end", "files": files});
+            match &verdict {
+                world::Verdict::Ok(_) => acc.violation("signature-counted-for-respelled-identifier", &format!("a signature attributed to A's id in another spelling ({sn}) was checked against A's key and counted"), w),
+                world::Verdict::Panic(l, m) => acc.violation(&format!("panic:{l}"), m, w),
+                _ => acc.outcome("respelled-identifier-not-counted"),
+            }
+        }
+        // (3) block level: Metablock::verify with A authorised
+        acc.evaluations += 1;
+        let mut v = link.clone();
+        v["signatures"][0]["keyid"] = json!(sp);
+        if let Ok(mb) = world::block_from_value(&v) {
+            if let Guard::Done(Ok(_)) = guard(|| mb.verify(1, [a.public()])) {
+                acc.violation("signature-counted-for-respelled-identifier", &format!("Metablock::verify counted a signature whose entry spells A's id differently ({sn})"), || json!({"kind": "respelled-id", "spelling": sn, "leg": "block"}));
+            }
+        }
+    }
+}
+
 pub fn run(tier: Tier) -> i32 {
     let mut c = Check::new("C12", "exploration", tier);
     // self-test: the standard SPKI templates equal OpenSSL's output (committed fixtures)
@@ -485,10 +552,11 @@ pub fn run(tier: Tier) -> i32 {
     }
     acc.sample(|| json!({"kind": "path", "key": "ed1", "paths": ["from_pkcs8", "from_spki(standard DER)", "from_pem_spki(standard PEM)", "from_ed25519(raw)", "json[...]"]}));
     check_reference_signatures(&mut acc);
+    check_respelled_ids(&mut acc);
     check_tables(&mut acc, if tier.thorough() { 3 } else { 2 });
     crate::envprobe::judge(&mut acc, "C12:", &mut c.extra);
     c.acc = acc;
-    c.rule = "keys: 6 Ed25519, 3 ECDSA P-256, RSA 2048 x2 / 3072 / 4096 / 8192 (the largest supported; public key only) / 2048 with public exponents 0x800001 and 0x80000001; construction paths: PKCS#8 private key, standard DER and PEM SubjectPublicKeyInfo, raw bytes, 64-byte keypair, JSON with/without a (lying) keyid member and a private member, each with hash-algorithm list absent/default/one/reordered where the path takes one; every RSA material also under the other PSS digest (PKCS#8, SPKI, JSON) in the same process; for each: key id == reference preimage hash, equality across paths, JSON round trip, SPKI re-export identity and re-import. Reference signatures: RSA 2048/3072/4096/8192 x both PSS digests x import path (DER, PEM, JSON): the OpenSSL-made signature of the same digest verifies, those of the other digest, of another key and with one bit flipped do not. Key tables: every sequence of <= N appended (label, key) entries over labels {id(A), id(B), zeros, id(A) in upper case, A's 8-character prefix + zeros, id(A) with the last digit changed} x keys {A, B, A and B rebuilt without a hash-algorithm list}, parsed, then used end to end with links signed by B".into();
+    c.rule = "keys: 6 Ed25519, 3 ECDSA P-256, RSA 2048 x2 / 3072 / 4096 / 8192 (the largest supported; public key only) / 2048 with public exponents 0x800001 and 0x80000001; construction paths: PKCS#8 private key, standard DER and PEM SubjectPublicKeyInfo, raw bytes, 64-byte keypair, JSON with/without a (lying) keyid member and a private member, each with hash-algorithm list absent/default/one/reordered where the path takes one; every RSA material also under the other PSS digest (PKCS#8, SPKI, JSON) in the same process; for each: key id == reference preimage hash, equality across paths, JSON round trip, SPKI re-export identity and re-import. Reference signatures: RSA 2048/3072/4096/8192 x both PSS digests x import path (DER, PEM, JSON): the OpenSSL-made signature of the same digest verifies, those of the other digest, of another key and with one bit flipped do not. Re-spelled identifiers: A's genuine signature under A's id in upper case / with one letter in upper case (inside and after the 8-character prefix), filed under the proper name, the re-spelled prefix and both, end to end and through Metablock::verify; an identifier is written back as read. Key tables: every sequence of <= N appended (label, key) entries over labels {id(A), id(B), zeros, id(A) in upper case, A's 8-character prefix + zeros, id(A) with the last digit changed} x keys {A, B, A and B rebuilt without a hash-algorithm list}, parsed, then used end to end with links signed by B".into();
     c.bound_completed = format!("all keys x all paths; tables of <= {} entries", if tier.thorough() { 3 } else { 2 });
     c.assume("reference key-id preimage = securesystemslib (self-tested against Python-made key ids in C11)");
     c.assume("standard SPKI encodings built by template and byte-compared with OpenSSL-generated fixtures");
@@ -504,6 +572,10 @@ pub fn replay(case: &Value) -> Value {
         let want = case["path"].as_str().unwrap_or("");
         let hit = acc.violations.values().find(|v| v.witness["path"] == want).map(|v| v.key.clone());
         return json!({"violation": hit.or_else(|| acc.violations.keys().next().cloned())});
+    }
+    if case["kind"] == "respelled-id" {
+        check_respelled_ids(&mut acc);
+        return json!({"violation": acc.violations.keys().next()});
     }
     if case["kind"] == "refsig" {
         check_reference_signatures(&mut acc);
